@@ -178,7 +178,7 @@ func checkC06Rtsp(k *sim.Kernel, rr *RelayRun) {
 				haveA = true
 			}
 		}
-		if (haveV && !haveVS) || (haveA && !haveAS) {
+		if (haveV && !haveVS) || (haveA && !haveAS && pub.Plan.AudioCodec == media.SoundAAC) {
 			continue
 		}
 		if a.Failed != "" && a.DescribeOK {
